@@ -15,6 +15,15 @@ CHECKS = {
  "C18": ("exploration", "runtime oracle (math/big, exact rationals) on the exported conversion functions; exhaustive scaled-ppm range in the thorough tier",
          "Held on all generated values including every int64 boundary class; the kernel's scaled-ppm range is enumerated completely in thorough.",
          "trusts math/big; CSPTP offset/delay inputs bounded so that no intermediate overflows int64 ns", "3/C18"),
+ "C16": ("fault_enumeration", "runtime monitor in testing/synctest bubbles (virtual time) under the race detector: enumerated completion-time x outcome fault scripts for scripted reference clocks",
+         "Every (completion time relative to the deadline) x (success/error) pattern for small n is enumerated, random scripts extend to 16 clocks; the oracle reads only the virtual clock, the result slice and bubble quiescence.",
+         "trusts testing/synctest's virtual time and deadlock detection (go1.24 experiment); a result completing exactly at the deadline may go either way", "3/C16"),
+ "C17": ("exploration", "runtime oracle over seeded sample histories of the real filters: reference model for the lucky-packet selection, property-derived necessary conditions and a reset-independence metamorphic check for Ntimed, with the filter's own log record as probe",
+         "Held on all generated histories for all 144 (cap,pick) configurations and on Ntimed histories with resets/epoch changes at every position.",
+         "trusts the harness's reference selection (distinct round-trip delays only), float tolerance of 4 ulp + 2 ns for the Ntimed raw-offset clause", "3/C17"),
+ "C19": ("exploration", "runtime monitor of Step/Adjust calls on a scripted clock while the real PLL is fed seeded (offset, weight, time, epoch) histories",
+         "Necessary conditions from the statement evaluated on every actuation of every generated history (both epoch-bumping and non-bumping clocks).",
+         "offsets != MinInt64, non-decreasing clock readings; for gaps >= 2^23 s the duration is accepted within float rounding", "3/C19"),
 }
 
 NOT_APPLICABLE = {
